@@ -406,6 +406,12 @@ func checkC06(P *Prog, r *Result) {
 			c := fmt.Sprintf("%s@%d", key, cnt[key])
 			pos := P.ipos(s.in)
 			b := s.in.Block()
+			// code behind a hook nobody installs does not run: the block is reached only when a package variable
+			// that nothing reachable from the public API ever writes is non-nil
+			if P.deadBehindUnsetHook(b) || P.onlyCalledBehindUnsetHook(fn) {
+				r.ok("C06/panic-site", c, pos, "only reached when a package-level hook that nothing ever sets is non-nil: dead unless the library is patched")
+				continue
+			}
 			switch s.kind {
 			case "typeassert":
 				ta := s.in.(*ssa.TypeAssert)
@@ -1523,4 +1529,49 @@ func (P *Prog) typeEqualityGuard(b *ssa.BasicBlock, rv ssa.Value) bool {
 		}
 	}
 	return false
+}
+
+// deadBehindUnsetHook: b is dominated by the non-nil side of a nil test of a package-level variable (read directly or
+// with an atomic Load) that nothing reachable from the public API ever writes.
+func (P *Prog) deadBehindUnsetHook(b *ssa.BasicBlock) bool {
+	for _, gd := range guardsOf(b) {
+		x, eq, isN := isNilCompare(gd.If.Cond)
+		if !isN || gd.True == eq {
+			continue // (the side on which the value is nil)
+		}
+		var g *ssa.Global
+		switch y := cv(x).(type) {
+		case *ssa.UnOp:
+			if y.Op == token.MUL {
+				g = rootGlobalOf(y.X)
+			}
+		case *ssa.Call:
+			if ci := callOf(y); ci.static != nil && isPkgFunc(ci.static, "sync/atomic") && strings.HasPrefix(ci.static.Name(), "Load") && len(ci.args()) > 0 {
+				g = rootGlobalOf(ci.args()[0])
+			}
+		}
+		if g != nil && P.neverWritten(g) {
+			return true
+		}
+	}
+	return false
+}
+
+// onlyCalledBehindUnsetHook: fn is an unexported function every call of which sits in code that is dead behind a hook
+// nobody installs (`if hook != nil { hook(describe(x)) }`).
+func (P *Prog) onlyCalledBehindUnsetHook(fn *ssa.Function) bool {
+	if fn.Parent() != nil {
+		return false
+	}
+	sites, closed := P.closedCallSites(fn)
+	if !closed || len(sites) == 0 {
+		return false
+	}
+	for _, site := range sites {
+		in, ok := site.(ssa.Instruction)
+		if !ok || !P.deadBehindUnsetHook(in.Block()) {
+			return false
+		}
+	}
+	return true
 }
